@@ -8,6 +8,20 @@ use tiny_http::verif_rt::core::{RunCfg, RunResult};
 use tiny_http::verif_rt::ctl;
 use tiny_http::verif_rt::explore::{explore, ExploreCfg, ExploreStats, Mode, Node};
 
+/// Step cap of the runs started from here (0 = the engine's default of 2 000 000): the
+/// magnitude families with tens of thousands of requests need more steps than that and set
+/// it for the duration of their item (a worker process runs one item at a time).
+pub static STEP_CAP: std::sync::atomic::AtomicU64 = std::sync::atomic::AtomicU64::new(0);
+
+pub fn run_cfg_default() -> RunCfg {
+    let mut rc = RunCfg::default();
+    let c = STEP_CAP.load(std::sync::atomic::Ordering::Relaxed);
+    if c > 0 {
+        rc.step_cap = c;
+    }
+    rc
+}
+
 #[derive(Clone, Debug)]
 pub struct L2Cfg {
     pub mode: Mode,
@@ -114,7 +128,7 @@ where
                 let bd = body.clone();
                 let rc = RunCfg {
                     replay: node.prefix.clone(),
-                    ..RunCfg::default()
+                    ..run_cfg_default()
                 };
                 let res = ctl::run(&rc, move || bd(o2));
                 let ob = o.lock().unwrap().clone();
@@ -181,7 +195,7 @@ where
                 let o2 = o.clone();
                 let bd = body.clone();
                 let res0 = {
-                    let rc = RunCfg::default();
+                    let rc = run_cfg_default();
                     ctl::run(&rc, move || bd(o2))
                 };
                 let o3: Arc<Mutex<O>> = Arc::new(Mutex::new(O::default()));
@@ -189,7 +203,7 @@ where
                 let bd2 = body.clone();
                 let rc = RunCfg {
                     replay: res0.decisions.iter().map(|d| (d.chosen, d.n)).collect(),
-                    ..RunCfg::default()
+                    ..run_cfg_default()
                 };
                 let res1 = ctl::run(&rc, move || bd2(o4));
                 acc.leaked_threads += (res0.leaked_threads + res1.leaked_threads) as u64;
@@ -276,7 +290,7 @@ where
         let rc = RunCfg {
             replay: sched.clone(),
             trace: true,
-            ..RunCfg::default()
+            ..run_cfg_default()
         };
         let res = ctl::run(&rc, move || bd(o2));
         if let Some(d) = &res.divergence {
